@@ -176,6 +176,46 @@ class Session:
         self.db.close()
         self.db = self._open()
 
+    def clone(self):
+        """A twin with the same stored contents, index validity and model."""
+        import shutil
+
+        t = Session.__new__(Session)
+        t.cfg = self.cfg
+        t.scratch = self.scratch
+        t.model = self.model.copy()
+        t.log = list(self.log)
+        t.non_utc = 0
+        t.path = None
+        if self.cfg["storage"] == "mem":
+            t.db = copy.deepcopy(self.db)
+        else:
+            t.path = self.scratch.new_db_path()
+            try:
+                self.db.storage._handle.flush()
+            except Exception:
+                pass
+            shutil.copyfile(self.path, t.path)
+            with quiet_stdout():
+                t.db = t._open()
+                if self.valid() and not t.valid():
+                    t.db.reindex()
+        return t
+
+    def discard(self):
+        self.close()
+        if self.path:
+            self.scratch.drop_db_dir(self.path)
+
+    @classmethod
+    def fresh_from_model(cls, cfg, scratch, model):
+        """A history-free database holding the model's points (inserted in order)."""
+        t = cls(cfg, scratch)
+        for p in model.points:
+            t.db.insert(p.to_real())
+        t.model = model.copy()
+        return t
+
     # -- state peeks (do not go through read_op, so no reindex is triggered) ---
     def contents(self):
         return norm_points(list(iter(self.db)))
